@@ -2,10 +2,13 @@
    Float requests (= C double; every datum is the 16 hex digits of its IEEE-754 bit pattern):
      <kind> <n> <nq> <nugget values> <n points> <n values> <nq queries> [| <N unknowns a>]
    with the kinds of harness/C19/harness.cxx (k1 k2 k3 pw cu f11 f12 f13 K1 K2 K3 F11 F12 F13 kf1 kf2 kf3).
+   The wrapper kinds (K1 .. F13) accept the suffixes `[v][+c]`: `v` = the `tfel::math::vector` constructors
+   (same arithmetic as the `std::vector` ones: same answer), `+c` = constructor argument `c` has one element
+   more than the others: `raise_if<KrigingErrorInvalidLength>(vx.size() != v?.size() ...)` fires.
    Rat requests (exact; data as `p/q`): the kind is prefixed by `q` (qk1 qpw qcu qf11), as served by
    harness/C19/exact.cxx.
    answers:  ok N m <N*N> rhs <N> [ev <n+nq>]   (ev only when the unknowns were given)
-             err no-data | insufficient-data | degenerate -/
+             err no-data | insufficient-data | degenerate | invalid-length -/
 import TfelVerif.C19.Model
 open TfelVerif.C19
 
@@ -191,10 +194,24 @@ def serve (fn : Fn α) (parse : String → Option α) (sh : α → String) (kind
 
 end generic
 
+def wrapperKinds : List String := ["K1", "K2", "K3", "F11", "F12", "F13"]
+
+/-- `K2v+1` ↦ (`K2`, some "1"); `K2v` ↦ (`K2`, none); other kinds are returned unchanged -/
+def splitKind (kind : String) : String × Option String :=
+  let (b, c) : String × Option String :=
+    match kind.splitOn "+" with
+    | [b, c] => (b, some c)
+    | _ => (kind, none)
+  match wrapperKinds.find? (fun w => b = w ∨ b = w ++ "v") with
+  | some w => (w, c)
+  | none => (kind, none)
+
 def answer (line : String) : String :=
   match (line.trimAscii.toString.splitOn " ").filter (· ≠ "") with
-  | kind :: ns :: nqs :: rest =>
-    if kind.startsWith "q" then serve fnRat parseRat showRat (kind.drop 1).toString ns nqs rest
+  | kind0 :: ns :: nqs :: rest =>
+    let (kind, longer) := splitKind kind0
+    if longer.isSome then "err invalid-length"
+    else if kind.startsWith "q" then serve fnRat parseRat showRat (kind.drop 1).toString ns nqs rest
     else serve fnFloat parseHex showHex kind ns nqs rest
   | _ => "bad-op"
 
